@@ -365,12 +365,13 @@ PROPS = {
         "level_text": "Theorems: (1) append_query leaves prefix (scheme, authority) and path untouched and appends exactly one parameter (empty query gives '?&k=v'); the number of cup2key parameters grows by exactly one; "
                       "the cup2key value never contains '&'; (2) C03_decoration_monitor_accepts_every_model_trace: for every script, URL, key id and entry point every request of the model's trace (update check, retry, "
                       "report, ping) is accepted by the executable monitor step3a: the configured URL with scheme, authority, path and old query intact plus exactly cup2key=<latest id>:<at least 64 hex digits>, "
-                      "no decoration without a handler, and the installer gets signed metadata exactly with CUP.  The real RequestBuilder + StandardCupv2Handler are compared byte for byte with the model on a URL corpus "
+                      "no decoration without a handler, and the installer gets signed metadata exactly with CUP; (3) C03_no_nonce_is_ever_used_twice: the same for step3f, which adds that the nonce of every request differs from the "
+                      "nonce of every earlier request of the history (the machine draws afresh for every request it sends; invariant over monitor state and the environment's nonce counter, Proofs/MonitorG.v).  The real RequestBuilder + StandardCupv2Handler are compared byte for byte with the model on a URL corpus "
                       "(no path, '/', deep path, existing/empty query, port, userinfo, IPv6 with zone, fragment, existing cup2key, relative, authority-only, '*', invalid): wire URI, wire body = metadata body, key id = latest, "
-                      "nonce in the URL = metadata nonce (64 lower-case hex), two builds give different nonces.  Scripted state-machine histories run under step3a and under the stricter run-time monitor step3 "
+                      "nonce in the URL = metadata nonce (64 lower-case hex), two builds give different nonces.  Scripted state-machine histories run under step3a, step3f and under the stricter run-time monitor step3 "
                       "(exactly 64 digits, nonces pairwise distinct over the history, installer metadata = wire) and are compared with the model's requests.",
-        "level_note": "PARTIAL: 'exactly 64 digits', 'metadata = bytes sent' and 'no nonce twice' are run-time checks + correspondence, not theorems (the model idealises the random generator as a counter, so a "
-                      "freshness theorem about it would say nothing about the code; uniqueness of random 256-bit nonces is probabilistic).  http::Uri parsing is an oracle; for URL shapes that are neither absolute nor origin-form only 'no panic' is compared.",
+        "level_note": "PARTIAL: 'exactly 64 digits' and 'metadata = bytes sent' are run-time checks + correspondence, not theorems (the model's nonce text is a zero-padded counter, 64 digits only below 10^64).  The "
+                      "freshness theorem is about the machine (one new draw per request sent); that two random 256-bit draws differ is probabilistic and assumed.  http::Uri parsing is an oracle; for URL shapes that are neither absolute nor origin-form only 'no panic' is compared.",
         "diff_meaning": "A decorated request differs from the model (URI, body, metadata, key id, nonce reuse), or the run-time decoration monitor rejects an implementation trace.",
         "rule": "22-URL corpus x random configs/params/op lists/key sets (latest id from {0,1,42,123456789,u64::MAX}); plus random CUP-enabled state-machine histories with retries, reports and pings; distinct = distinct input / trace",
         "assumptions": ["http::Uri parsing/rendering (oracle)", "rand::thread_rng yields distinct 256-bit values"],
